@@ -911,7 +911,7 @@ def run_sort(chk, r):
     items = sort_items(chk.quick)
     # cheapest first so that a deadline cuts between bounds
     res = run_batch("fast", os.path.join(os.path.dirname(os.path.abspath(__file__)), "driver_sort.janet"),
-                    [t for _, t, _ in items], chunk=1, timeout=900)
+                    [t for _, t, _ in items], chunk=1, timeout=90 if chk.quick else 240)
     total = 0
     for (label, txt, want), (status, text) in zip(items, res):
         if status != "OK":
